@@ -122,6 +122,7 @@ def gen_knobs(rng, prop, profile):
         "evict_on_startup": rng.random() < 0.15,
         "val_style": wchoice(rng, [(60, "bool"), (20, "numpy"), (20, "int")]),
         "relative_path": rng.random() < 0.12,
+        "warnings_error": rng.random() < 0.08,  # (C19 runs only) the process treats warnings as errors
         "fd_limit": 48 if rng.random() < 0.3 else None,  # a small descriptor limit exposes descriptor leaks
         "second_cache": second,  # (module-level API only) a second named cache in the same process
         "other_max": 10**9,
